@@ -107,7 +107,7 @@ CHECKS["C11"] = (
 
 CHECKS["C12"] = (
     "CrossHair-explored rule shapes through the real pipeline + conversion, one instantiation per built-in transformation / parameter variation; z3 decides equivalence of the converted query with the reference semantics of the hand-rewritten source; identity instances must give byte-identical queries",
-    "35 transformation instances (hash field splitting, field mapping 1:1 / 1:n / keyword->field / prefix mapping / prefix / suffix / scoped by include/exclude/applied-item, drop item, add_condition plain / negated / template / scoped out, replace_string incl. identity, empty result and numbers, map_string 1:1 / 1:n / drop, case, set_value incl. false, convert_type, regex, nest, chains, 'matches nothing' instances) x two detections from a 15-shape pool x 6 condition forms, each pipeline first applied to a primer rule with another log source; 4 placeholder pipelines x 11 `expand` shapes compared with the hand-expanded document (thorough: 28-shape pool incl. Hashes under all / by length, cased / endswith / contains / lt / exists / re|i / mixed lists x 12 condition forms).",
+    "39 transformation instances (hash field splitting, regex ignore-case flag / brackets, change_logsource chains, field mapping 1:1 / 1:n / keyword->field / prefix mapping / prefix / suffix / scoped by include/exclude/applied-item, drop item, add_condition plain / negated / template / scoped out, replace_string incl. identity, empty result and numbers, map_string 1:1 / 1:n / drop, case, set_value incl. false, convert_type, regex, nest, chains, 'matches nothing' instances) x two detections from a 15-shape pool x 6 condition forms, each pipeline first applied to a primer rule with another log source; 4 placeholder pipelines x 11 `expand` shapes compared with the hand-expanded document (thorough: 28-shape pool incl. Hashes under all / by length, cased / endswith / contains / lt / exists / re|i / mixed lists x 12 condition forms).",
     TB,
     "5.C12",
 )
